@@ -270,7 +270,8 @@ class Statement(object):
         not the way the value was written), using two's complement for negative
         values. Raises a TranslationError if the value does not fit.
         """
-        if self.instruction.is_pseudo or not self.code_pkg.additional.is_numeric():
+        is_data = self.instruction.is_multi_byte or self.instruction.is_multi_word
+        if (self.instruction.is_pseudo and not is_data) or not self.code_pkg.additional.is_numeric():
             return
         width = self.code_pkg.size - self.code_pkg.op_code.byte_len() - self.code_pkg.post_byte.byte_len()
         value = self.code_pkg.additional
@@ -309,6 +310,10 @@ class Statement(object):
                 if self.instruction.is_short_branch and length > 127:
                     raise TranslationError("Branch target out of range", self)
                 self.code_pkg.additional = NumericValue(length, size_hint=size_hint)
+            return
+
+        if self.operand.value.is_multi_byte() or self.operand.value.is_multi_word():
+            self.operand.value.fix_addresses(statements)
             return
 
         if self.operand.value.is_address_expression():
